@@ -45,6 +45,8 @@ def family_of(index):
     import os
     if os.environ.get('VERIF_C12_FAMILY'):
         return os.environ['VERIF_C12_FAMILY']
+    if index % 70 == 69:
+        return 'L'          # directed ladder world for known finding F7
     k = index % 7
     return 'T' if k in (0, 1, 2, 3) else ('R' if k == 4 else 'F')
 
@@ -129,29 +131,42 @@ def _gen_R(run_seed):
                 run_seed=int(run_seed))
 
 
-def _gen_F(run_seed):
+def _gen_F(run_seed, lever_world=False):
     r = FW.rng_of(run_seed)
     for _ in range(40):
-        sc = _gen_F_once(r)
+        sc = _gen_F_once(r, lever_world)
         if sc is not None:
             sc['run_seed'] = int(run_seed)
             return sc
     raise RuntimeError("ladder generator could not stay inside the fence")
 
 
-def _gen_F_once(r):
+def _gen_L(run_seed):
+    return _gen_F(run_seed, lever_world=True)
+
+
+def _gen_F_once(r, lever_world=False):
     wd = W.make_world(r, gentle=True)
+    if lever_world:
+        # body rates of a few 0.01 rad/s so that omega x lever is centimetres per second
+        wd['rate_terms'] = [[float(r.uniform(0.03, 0.05)), float(r.uniform(0.02, 0.033)),
+                             float(r.uniform(0, 6.28)), int(r.integers(3))]
+                            for _ in range(2)]
     period = [0.02, 0.05][int(r.integers(2))]
     span = float(r.uniform(6.0, 14.0))
     n = int(round(span / period))
     origin = [0.0, 100.0, 4.0e5][int(r.integers(3))]
     imu = origin + period * np.arange(n + 1)
     regime = ['weak', 'strong'][int(r.integers(2))]
+    if lever_world:
+        regime = 'strong'
     sig = [10.0 * FW._logu(r, -0.5, 0.5), 1.0 * FW._logu(r, -0.5, 0.5),
            0.5 * FW._logu(r, -0.5, 0.3), 2.0 * FW._logu(r, -0.5, 0.3)]
     mult = float(r.uniform(1.0, 3.0)) if regime == 'weak' else float(r.uniform(0.05, 0.15))
     sensors = []
     classes = [c for c in FW.SENSOR_CLASSES if r.random() < 0.6] or ['Position']
+    if lever_world and 'NedVelocity' not in classes:
+        classes.append('NedVelocity')
     taken = set()
     for cls in classes:
         k = int(r.integers(3, 8))
@@ -164,6 +179,8 @@ def _gen_F_once(r):
         #  hands the measurement model no body rates, see finding F7 in DESIGN.md)
         if cls == 'Position' and r.random() < 0.4:
             lever = [FW._f(x) for x in r.uniform(-1, 1, 3)]
+        if lever_world and cls == 'NedVelocity':
+            lever = [FW._f(x) for x in r.uniform(1.0, 2.5, 3) * r.choice([-1, 1], 3)]
         sensors.append(dict(cls=cls, sd=float(sd), lever=lever,
                             noise_seed=int(r.integers(2 ** 31)),
                             stamps=[float(imu[i]) for i in idx]))
@@ -174,7 +191,7 @@ def _gen_F_once(r):
                  bias_walk=None,
                  scale_misal_sd=(FW._logu(r, -3, -2) if r.random() < 0.2 else None))
     e = np.clip(r.standard_normal(9), -2, 2)
-    knobs = dict(with_altitude=bool(r.random() < 0.5),
+    knobs = dict(with_altitude=bool(lever_world or r.random() < 0.5),
                  time_step=[0.2, 0.5][int(r.integers(2))], initial_size=10000,
                  measurements_arg='list', gyro_model=gyro, accel_model=accel,
                  models_omitted=False, sigmas=sig,
@@ -198,7 +215,8 @@ def _gen_F_once(r):
             t[3] = 2
         for t in wd['force_terms']:
             t[3] = int(t[3]) % 2
-    sc = dict(format=1, kind='filter', family='F', filter='feedback', profile='ladder',
+    sc = dict(format=1, kind='filter', family='L' if lever_world else 'F',
+              filter='feedback', profile='ladder',
               template='ladder', regime=regime, world=wd,
               imu=dict(type=['rate', 'increment'][int(r.integers(2))],
                        stamps=[float(x) for x in imu]),
@@ -213,7 +231,7 @@ def _gen_F_once(r):
 
 def generate(run_seed, tier, index):
     fam = family_of(index)
-    return {'T': _gen_T, 'R': _gen_R, 'F': _gen_F}[fam](run_seed)
+    return {'T': _gen_T, 'R': _gen_R, 'F': _gen_F, 'L': _gen_L}[fam](run_seed)
 
 
 # ------------------------------------------------------------------- execution
@@ -420,6 +438,12 @@ def _exec_F(sc):
     if met is not None:
         wa = bool(sc['knobs']['with_altitude'])
         tau0 = TAU0[(sc['regime'], wa)]
+        lever_note = ''
+        if any(s_['cls'] == 'NedVelocity' and s_['lever'] is not None
+               for s_ in sc['sensors']):
+            lever_note = (" [NedVelocity measurement with a lever arm: the feedforward "
+                          "filter hands the measurement model no body rates, so the "
+                          "omega x lever term is dropped there - finding F7]")
         for i in (0, 1):
             hi, lo = met[i], met[i + 1]
             if lo['Dsd'] > SD_RATIO * hi['Dsd'] + SD_FLOOR:
@@ -439,7 +463,9 @@ def _exec_F(sc):
                               f"{'3-D' if wa else '2-D'} world): D(1)={d1:.3e}, "
                               f"D(0.1)={d2:.3e}, D(0.01)={d3:.3e} sigma; rule "
                               f"D(0.1) <= {RATIO[0]}*D(1) + {tau0}, D(0.01) <= "
-                              f"{RATIO[1]}*D(0.1) + {tau0}", f'F/ladder/{label}'))
+                              f"{RATIO[1]}*D(0.1) + {tau0}" + lever_note,
+                              'F/ladder/ned-velocity-lever-arm' if lever_note
+                              else f'F/ladder/{label}'))
         r = sc['regime'] + ('3d' if wa else '2d')
         extra = {f'max_{r}_D1': met[0]['D'], f'max_{r}_D001': met[2]['D'],
                  f'max_{r}_excess_over_tau0': max(
@@ -449,6 +475,8 @@ def _exec_F(sc):
                      met[i + 1]['Dsd'] - SD_RATIO * met[i]['Dsd'] for i in (0, 1)) / SD_FLOOR}
     kn = sc['knobs']
     probes = {'F_worlds': 1, 'F_' + sc['regime'] + '_aiding': 1}
+    if sc.get('family') == 'L':
+        probes = {'L_directed_lever_arm_worlds': 1}
     if FW.model_has_sm(kn['gyro_model']) or FW.model_has_sm(kn['accel_model']):
         probes['F_scale_misalignment_states'] = 1
     if not kn['with_altitude']:
@@ -464,7 +492,7 @@ def _exec_F(sc):
 
 def execute(sc):
     fam = sc.get('family')
-    return {'T': _exec_T, 'R': _exec_R, 'F': _exec_F}[fam](sc)
+    return {'T': _exec_T, 'R': _exec_R, 'F': _exec_F, 'L': _exec_F}[fam](sc)
 
 
 def shrink(sc, vclass):
@@ -501,7 +529,8 @@ PROBES_WANTED = ['T_runs', 'T_measurements_none', 'T_measurements_empty', 'T_emp
                  'T_with_scale_misalignment_states', 'T_buffer_growth', 'R_runs',
                  'R_same_run_repeated', 'R_both_filters_share_objects',
                  'R_two_scenarios_share_models', 'F_worlds', 'F_weak_aiding',
-                 'F_strong_aiding', 'F_scale_misalignment_states', 'F_two_d_mode']
+                 'F_strong_aiding', 'F_scale_misalignment_states', 'F_two_d_mode',
+                 'L_directed_lever_arm_worlds']
 
 
 def describe():
